@@ -97,7 +97,7 @@ impl GenCfg {
             _ => (rng.range(21, 60) as usize, rng.range(41, 200) as usize),
         };
         // one run in a hundred is large: thresholds on width, depth, node count, free-list length
-        let huge = rng.chance(1, 100);
+        let huge = rng.chance(1, 60);
         if huge {
             max_live = rng.range(80, 400) as usize;
             steps = rng.range(300, 1500) as usize;
@@ -294,6 +294,13 @@ impl GenCfg {
                 3 => w[k as usize] *= 4,
                 _ => {}
             }
+        }
+        if huge {
+            // fill up quickly, so that most of the run happens at scale; fewer whole-tree kills
+            w[K::AppendValue as usize] = w[K::AppendValue as usize].max(8) * 6;
+            w[K::New as usize] = w[K::New as usize].max(4) * 2;
+            w[K::Clear as usize] = w[K::Clear as usize].min(1);
+            w[K::CycleSlot as usize] = w[K::CycleSlot as usize].min(1);
         }
         for r in rel_w.iter_mut() {
             match rng.below(8) {
